@@ -10,10 +10,17 @@ NOTE = ""
 ASSUMPTIONS = []
 DESIGN_REF = "DESIGN.md §5 C35"
 
-def fmt(name, N, R, Q=1, D=4, extra=(), **kw):
+def fmt(name, N, R, Q=1, D=4, sec=1, extra=(), **kw):
+    nn = Q + 2 * R
     d = dict(name=name, harness="C35_response.c", entry="harness_format",
-             defines=["C35_N=%d" % N, "C35_R=%d" % R, "C35_Q=%d" % Q, "C35_D=%d" % D] + list(extra),
-             unwind=max(N, D, R) + 3, timeout=900, mem_gb=8,
+             defines=["C35_N=%d" % N, "C35_R=%d" % R, "C35_Q=%d" % Q, "C35_D=%d" % D, "C35_FIXLEN", "C35_SECMODE=%d" % sec, "VP_MEMCPY_SMALL=%d" % max(N, D, 4)] + list(extra),
+             unwind=max(4, R + 1),
+             unwindset=["strcmp.0:%d" % (N + 2), "strlen.0:%d" % (N + 2), "strchr.0:%d" % (N + 2), "dnslabel_table_get_pos.0:%d" % (nn + 1), "dnslabel_clear.0:%d" % (nn + 1),
+                        "dnsname_to_labels.1:3", "vp_memcpy.0:%d" % (max(N, D, 4) + 2), "dnsref_name.0:%d" % (N + 1), "dnsref_name.1:%d" % (N + 6), "vp_bytes.0:%d" % (max(N, D) + 1),
+                        "harness_format.0:%d" % (R + 1), "harness_format.1:%d" % (D + 1), "harness_format.2:%d" % (R + 1), "c35_same_name.0:%d" % (N + 1), "c35_name.0:%d" % (N + 1),
+                        "server_request_free_answers.0:4", "server_request_free_answers.1:%d" % (R + 1), "evdns_server_request_add_reply.0:%d" % (R + 1),
+                        "evdns_server_request_format_response.6:%d" % (Q + 1), "evdns_server_request_format_response.20:4", "evdns_server_request_format_response.19:%d" % (R + 1)],
+             timeout=900, mem_gb=8,
              desc="format_response: %d question, %d records, names <= %d bytes, raw data <= %d" % (Q, R, N, D))
     d.update(kw); return d
 
@@ -30,5 +37,15 @@ def labels(name, N, T, B=24, J0=10, excl=False, **kw):
              desc="dnsname_to_labels step under an arbitrary valid compression table (<= %d entries, message prefix <= %d symbolic bytes, buffer %d, symbolic buf_len), every encodable name <= %d bytes" % (T, J0, B, N))
     d.update(kw); return d
 
+def far(name, N, **kw):
+    nl = (N + 1) // 2 + 1
+    d = dict(name=name, harness="C35_response.c", entry="harness_ptr14", defines=["C35_N=%d" % N], unwind=2,
+             unwindset=["vp_bytes.0:%d" % (N + 5), "dnsref_name.0:%d" % (N + 1), "dnsref_name.1:%d" % (N + 6), "dnsref_name_encodable.0:%d" % (N + 1),
+                        "strlen.0:%d" % (N + 2), "strcmp.0:%d" % (N + 2), "strchr.0:%d" % (N + 2), "vp_memcpy.0:%d" % (N + 2), "c35_same_name.0:%d" % (N + 1),
+                        "dnslabel_table_get_pos.0:%d" % (2 * nl + 1), "dnslabel_clear.0:%d" % (2 * nl + 1), "dnsname_to_labels.1:%d" % (nl + 1)],
+             timeout=900, mem_gb=8,
+             desc="suffix registered via dnslabel_table_add at a symbolic offset 0..65535, same name (<= %d bytes) encoded again: an emitted pointer denotes that offset (14-bit pointer range)" % N)
+    d.update(kw); return d
+
 def obligations(tier):
-    return [labels("labels_wf_n3_t1", 3, 1, B=16, J0=6, excl=True), labels("labels_all_n3_t1", 3, 1, B=16, J0=6)]
+    return [fmt("fmt_q1_r1", 2, 1, D=2, extra=["C35_NOTRUNC"]), labels("labels_wf_n3_t1", 3, 1, B=16, J0=6, excl=True), labels("labels_all_n3_t1", 3, 1, B=16, J0=6), far("ptr14_n3", 3)]
